@@ -1,4 +1,5 @@
 """Independent python oracles of the core properties over the implementation's trace only."""
+import re
 from props.corelib import align, parse_dump, parse_invoke, legal_path
 
 LIFE = ('start', 'pause', 'resume', 'stop', 'dereg')
@@ -98,7 +99,7 @@ def c07(lines, out):
         elif not had_ctx and r.prev_dump and r.depth == 0:
             if t[0] in CTX_OPS and t[0] != 'ctx_reg' and not neg(r.result):
                 v.append(('no_ctx', '%s without a context returned %s' % (r.op, r.result)))
-            if t[0] not in CTX_OPS and isint(r.result) and not neg(r.result):
+            if t[0] not in CTX_OPS and t[0] != 'unref' and isint(r.result) and not neg(r.result):   # (dropping a reference is not a context call)
                 v.append(('no_ctx', '%s without a context returned %s' % (r.op, r.result)))
             if r.dump and r.dump != r.prev_dump:
                 v.append(('no_ctx', '%s without a context had an effect' % r.op))
@@ -358,6 +359,10 @@ def c09(lines, out):
             continue
         if t[0] in ('reg_fd', 'reg_tmr'):
             kd = t[0][4:]; key = t[2][1:] if kd == 'fd' else t[2]
+            if kd == 'fd' and 'd' in t[3]:
+                # M_SRC_DUP: the source *is* the duplicate the library makes (its identifying value is the duplicate's number,
+                # which the user never learns): literal reading, see DESIGN.md §7 C09 observations
+                key = str(100 + int(key))
             if res == '0':
                 # a one-shot source leaves the set when it fires, which this oracle cannot see for low-priority events
                 if key in S(t[1])[kd] and S(t[1])[kd][key] != 'o':
@@ -440,7 +445,9 @@ def c03(lines, out):
                             v.append(('owner', 'event of descriptor %s registered by %s with u%s delivered to %s with %s' % (f[0], o[0], o[1], h, f[1])))
             continue
         t = r.op.split()
-        if t[0] == 'reg_fd' and r.result == '0': owner[('fd', t[2][1:])] = (t[1], t[4][1:])
+        if t[0] == 'reg_fd' and r.result == '0':
+            # with M_SRC_DUP the source is the library's duplicate (reported as 100 + k)
+            owner[('fd', str(100 + int(t[2][1:])) if 'd' in t[3] else t[2][1:])] = (t[1], t[4][1:])
         if t[0] == 'dereg_fd' and r.result == '0': owner.pop(('fd', t[2][1:]), None)
         if t[0] == 'quit' and r.result == '0': quit_code = int(t[1]) % 256
         if any(x == 'BATCH !quit' for x in r.out): quit_code = 77
@@ -480,6 +487,8 @@ def c20(lines, out):
             if k in closed:
                 v.append(('user_fd_once', 'descriptor f%s closed twice' % k))
             closed.add(k)
+        elif b.startswith('dup:'):
+            pass      # a duplicate the library made for itself: its to close (that it does close it is the leak check below)
         elif b == 'pipe-r':
             nr += 1
         elif b == 'pipe-w':
@@ -493,12 +502,30 @@ def c20(lines, out):
         open_pipes = sum(1 for m in mods.values() if m.get('pipe') == 1)
         if nr != nw and open_pipes == 0:
             v.append(('pipes', 'every module pipe is gone but %d read ends and %d write ends were closed' % (nr, nw)))
+    lk = leakcheck_of(out)
+    if lk and lk[1] > 0 and not tr.fault:
+        v.append(('fd_leak', 'after the context was deregistered %d descriptors opened by the library are still open' % lk[1]))
+    if lk and lk[1] < 0 and not tr.fault:
+        v.append(('fd_foreign_close', 'after the teardown %d descriptors the library does not own are closed' % -lk[1]))
     return v
+
+
+def leakcheck_of(out):
+    """(live blocks, extra descriptors) reported after a complete teardown, or None"""
+    for o in out:
+        m = re.match(r'LEAKCHECK live=(-?\d+) fds=(-?\d+)', o)
+        if m:
+            return int(m.group(1)), int(m.group(2))
+    return None
 
 
 def c04(lines, out):
     tr = Trace(lines, out)
-    return common(tr)
+    v = common(tr)
+    lk = leakcheck_of(out)
+    if lk and lk[0] != 0 and not tr.fault:
+        v.append(('teardown_leak', 'after the context was deregistered and every user reference dropped, %d blocks allocated by the library are still allocated' % lk[0]))
+    return v
 
 
 def c13(lines, out):
